@@ -380,7 +380,8 @@ def wl_toplevel(ctx, rng, i):
     kind2 = rng.choice(["object", "observable"])
     dec2 = stix2.v21.CustomObject if kind2 == "object" else stix2.v21.CustomObservable
     bad_name = rng.choice(["a b", "fo", "Foo_bar", "foo-bar"])
-    for attempt, props, extname in (("bad property name", [(bad_name, P.StringProperty())], ename2), ("extension_name that is no extension definition id", [("prop_one", P.StringProperty())], "x-stixmon-not-an-id-ext")):
+    for attempt, props, extname in (("bad property name", [(bad_name, P.StringProperty())], ename2), ("extension_name that is no extension definition id", [("prop_one", P.StringProperty())], "x-stixmon-not-an-id-ext"),
+                                    ("extension_name that is taken", [("prop_one", P.StringProperty())], ename)):
         ctx.ev()
         ctx.count("registration_attempts")
         try:
@@ -392,7 +393,9 @@ def wl_toplevel(ctx, rng, i):
             pass
         except Exception as e:
             ctx.violation("registration-raised-outside-family", "registering %r with %s raised %s" % (tname, attempt, type(e).__name__), dict(w, type=tname, attempt=attempt, exception=repr(e)))
-        left = [n for n in (extname,) if looks_up("extension", "2.1", n) is not None] + [tname for c in ("object", "observable") if looks_up(c, "2.1", tname) is not None]
+        left = [n for n in (extname,) if n != ename and looks_up("extension", "2.1", n) is not None] + [tname for c in ("object", "observable") if looks_up(c, "2.1", tname) is not None]
+        if extname == ename and looks_up("extension", "2.1", ename) is not cls:
+            left.append("(the earlier registration of %s was replaced)" % ename)
         if left:
             ctx.violation("failed-registration-changed-registry", "a refused registration (%s) left %r registered" % (attempt, left), dict(w, type=tname, attempt=attempt, left=left))
     try:
